@@ -33,8 +33,8 @@ def src(atts, polls=False):
     return [["polls", 1 if polls else 0]] + [["att"] + list(a) for a in atts]
 
 
-def scn(srcs=(), subjects=(), conns=(), handles=1, script_=()):
-    return ["scn", ["srcs"] + list(srcs), ["subjects"] + list(subjects), ["conns"] + list(conns), ["handles", handles],
+def scn(srcs=(), subjects=(), conns=(), handles=1, script_=(), defs=()):
+    return ["scn", ["srcs"] + list(srcs), ["subjects"] + list(subjects), ["conns"] + list(conns), ["defs"] + list(defs), ["handles", handles],
             ["script"] + list(script_)]
 
 
